@@ -205,7 +205,7 @@ def session_worker(job):
             if op == "get":
                 out = drv.call("get", "1.3.6.1.4.1.9.3")
             elif op == "get_many":
-                out = drv.call("get_many", ["1.3.6.1.4.1.9.3", "1.3.6.1.4.1.9.4"])
+                out = drv.call("get_many", ["1.3.6.1.4.1.9.3", "1.3.6.1.4.1.9.4", "1.3.6.1.4.1.9.5"][:rng.choice([1, 1, 2, 3])])
             else:
                 out = drv.call(op, "1.3.6.1.4.1.9", limit=rng.choice([3, 12, 100]))
             if out[0] == "exc" and out[1]["cls"] == "TimeoutError":
